@@ -90,8 +90,7 @@ def run(ctx):
                 continue
             L = gen.dev_create(kind, flav, b"name") + ["mountdev 0", "mount 0 0", "mkdir - %s" % hexs(b"d"), "open 0 - %s w" % hexs(b"f"), "write 0 3 3", "close 0", "umount", "umountdev"]
             run_twice(ctx, L, "format", {"device": kind, "flavour": flav})
-            if not kind.startswith("HF:1"):
-                mc.append(("format", {"device": kind, "flavour": flav}, L))
+            mc.append(("format", {"device": kind, "flavour": flav}, L))
             # the unoptimised build too: an optimising compiler may overlay an uninitialised local with a zeroed one
             run_twice(ctx, L, "format", {"device": kind, "flavour": flav}, variant="adfh-vg")
             if len(ctx.failures) > 5:
